@@ -7,7 +7,7 @@
      run c (init start admin) calls : the state after any list of calls, each call with the set
                                       of addresses that authorise it (a failing call changes nothing)
      abs s a r = has_role s a r     : the set of (account, role) pairs granted and not since revoked *)
-From SC Require Import Lib.Prelude Lib.Int Lib.Host Model.RoleTransfer Model.Access Model.AllowList Proofs.Access Run.C06 Proofs.C06Monitor.
+From SC Require Import Lib.Prelude Lib.Int Lib.Host Model.RoleTransfer Model.Access Model.AllowList Model.AccessLow Proofs.Access Proofs.AccessLow Run.C06 Proofs.C06Monitor Proofs.C06Low.
 From SC Require Proofs.RoleTransfer Run.C07.
 
 (* ---- the queryable membership describes exactly the granted set ---- *)
@@ -208,6 +208,121 @@ Theorem C06_monitor_accepts_model_allowlist : forall h cs,
   check (observe_model_allow h cs) = (0%N, 0%N, 0%N).
 Proof. exact check_model_allow. Qed.
 Print Assumptions C06_monitor_accepts_model_allowlist.
+
+(* ---- constructors with caller-supplied account lists and the low-level (no-auth) entry points ---- *)
+(* Model/AccessLow.v: linit c start admin pairs = set_admin followed by grant_role_no_auth for every listed
+   (account, role) pair in order (examples/fee-forwarder-permissioned, timelock-controller, fungible-allowlist, ...),
+   lrun = any sequence of ordinary calls (LCall) and of grant_role_no_auth / revoke_role_no_auth /
+   set_role_admin_no_auth / remove_role_admin_no_auth / the two guards called directly.
+   In every state reachable that way - whatever the constructor list: duplicates, the admin among the members,
+   the same account under several roles - the queryable membership describes exactly the set (as in
+   C06_refines_set), and every low-level call commutes with the obvious set operation. *)
+Theorem C06_low_refines_set : forall c start adm pairs cs,
+  let s := lrun c (linit c start adm pairs) cs in
+  (forall r, let l := members_list s r in
+     NoDup l /\ N.of_nat (length l) = a_count s r /\
+     (forall a, In a l <-> abs s a r = true) /\
+     (forall i a, a_member s r i = Some a <-> nth_error l (N.to_nat i) = Some a) /\
+     (forall a i, a_has s a r = Some i <-> nth_error l (N.to_nat i) = Some a) /\
+     (forall i, (a_count s r <= i)%N -> a_member s r i = None)) /\
+  (NoDup (a_existing s) /\ forall r, In r (a_existing s) <-> exists a, abs s a r = true) /\
+  (forall cl a r, abs (fst (lstep c s cl)) a r =
+     match cl with
+     | LCall cl0 =>
+         if snd (lstep c s cl) then
+           match cl0 with
+           | Grant account r0 _ _ => abs s a r || (N.eqb a account && N.eqb r r0)
+           | Revoke account r0 _ _ => abs s a r && negb (N.eqb a account && N.eqb r r0)
+           | RenounceRole r0 caller _ => abs s a r && negb (N.eqb a caller && N.eqb r r0)
+           | _ => abs s a r
+           end
+         else abs s a r
+     | GrantNoAuth account r0 => if snd (lstep c s cl) then abs s a r || (N.eqb a account && N.eqb r r0) else abs s a r
+     | RevokeNoAuth account r0 => if snd (lstep c s cl) then abs s a r && negb (N.eqb a account && N.eqb r r0) else abs s a r
+     | _ => abs s a r
+     end).
+Proof. exact low_refines_set. Qed.
+Print Assumptions C06_low_refines_set.
+
+(* a constructed contract holds exactly the SET of the listed pairs (h: the trace header - universe without
+   duplicates, listed pairs inside it, no more role names than MAX_ROLES so that no grant is refused) *)
+Theorem C06_ctor_list_is_set : forall h a r,
+  wf_aheader (lh h) = true -> wf_lheader h = true ->
+  (abs (lh_init h) a r = true <-> In (a, r) (lh_ctor h)).
+Proof. exact ctor_list_is_set. Qed.
+Print Assumptions C06_ctor_list_is_set.
+(* without any capacity assumption: nothing is born with a role the constructor was not told *)
+Theorem C06_ctor_sound : forall c start adm pairs a r,
+  abs (linit c start adm pairs) a r = true -> In (a, r) pairs.
+Proof. exact ctor_sound. Qed.
+Print Assumptions C06_ctor_sound.
+
+(* grant_role_no_auth of a pair that is already held changes nothing at all *)
+Theorem C06_no_auth_grant_idempotent : forall c s account r,
+  has_role s account r = true -> lstep c s (GrantNoAuth account r) = (s, true).
+Proof. exact grant_no_auth_idempotent. Qed.
+Print Assumptions C06_no_auth_grant_idempotent.
+
+(* the no-auth entry points never touch the ledger, the admin / pending admin or the tokens; a role's admin
+   role changes only by set_role_admin_no_auth (always succeeds) / remove_role_admin_no_auth (iff one is set);
+   remove_role_accounts_count_no_auth is refused while the role has a member and never changes a getter *)
+Theorem C06_no_auth_frame : forall c s cl,
+  match cl with LCall _ => True | _ =>
+    a_now (fst (lstep c s cl)) = a_now s /\ a_rt (fst (lstep c s cl)) = a_rt s /\ a_nft (fst (lstep c s cl)) = a_nft s /\
+    match cl with
+    | SetRoleAdminNoAuth r ar =>
+        snd (lstep c s cl) = true /\ a_role_admin (fst (lstep c s cl)) = upd (a_role_admin s) r (Some ar)
+    | RemoveRoleAdminNoAuth r =>
+        snd (lstep c s cl) = is_some (a_role_admin s r) /\
+        a_role_admin (fst (lstep c s cl)) = if is_some (a_role_admin s r) then upd (a_role_admin s) r None else a_role_admin s
+    | RemoveCountNoAuth r answer =>
+        fst (lstep c s cl) = s /\ (snd (lstep c s cl) = true -> a_count s r = 0%N) /\
+        ((0 < a_count s r)%N -> snd (lstep c s cl) = false)
+    | _ => a_role_admin (fst (lstep c s cl)) = a_role_admin s
+    end
+  end.
+Proof. exact low_frame. Qed.
+Print Assumptions C06_no_auth_frame.
+
+(* ensure_if_admin_or_admin_role / ensure_role called directly: exactly the test, no effect *)
+Theorem C06_ensure_semantics : forall c s r caller,
+  lstep c s (EnsureAuthority r caller) =
+    (s, match holder (a_rt s) with Some a => N.eqb caller a | None => false end
+        || match a_role_admin s r with Some ar => has_role s caller ar | None => false end) /\
+  lstep c s (EnsureRole r caller) = (s, has_role s caller r).
+Proof. exact ensure_closed. Qed.
+Print Assumptions C06_ensure_semantics.
+
+(* no role - whatever its name, the empty symbol included - is a "default admin role": a role without a
+   configured admin role is granted, revoked and passes the authority guard for the contract admin alone *)
+Theorem C06_no_default_admin_role : forall c s r,
+  a_role_admin s r = None ->
+  (forall a caller au, snd (step c s (Grant a r caller au)) = true ->
+                       holder (a_rt s) = Some caller /\ has_auth au caller = true) /\
+  (forall a caller au, snd (step c s (Revoke a r caller au)) = true ->
+                       holder (a_rt s) = Some caller /\ has_auth au caller = true) /\
+  (forall caller, snd (lstep c s (EnsureAuthority r caller)) = true -> holder (a_rt s) = Some caller).
+Proof. exact no_default_admin_role. Qed.
+Print Assumptions C06_no_default_admin_role.
+
+Theorem C06_monitor_accepts_model_low : forall h cs,
+  wf_aheader (lh h) = true -> wf_lheader h = true -> forallb (wf_lcall (ah_u (lh h))) cs = true ->
+  check (observe_model_low h cs) = (0%N, 0%N, 0%N).
+Proof. exact check_model_low. Qed.
+Print Assumptions C06_monitor_accepts_model_low.
+
+(* what the early return of grant_role_no_auth is for: WITHOUT it (grant_role_no_auth_always_add) a constructor
+   list naming one account twice yields count 2 for a single holder, the account in two enumeration slots and
+   has_role pointing at the second one - the enumeration no longer describes the set.  The faithful model of the
+   same list: one member.  (Hypotheses of C06_ctor_list_is_set / C06_monitor_accepts_model_low are satisfiable.) *)
+Example C06_always_add_refuted :
+  let bad := bad_ctor ex_cfg 100 (Some 0%N) [(1, 2); (1, 2)]%N in
+  let good := linit ex_cfg 100 (Some 0%N) [(1, 2); (1, 2)]%N in
+  a_count bad 2%N = 2%N /\ members_list bad 2%N = [1; 1]%N /\ a_has bad 1%N 2%N = Some 1%N /\
+  a_count good 2%N = 1%N /\ members_list good 2%N = [1]%N /\ a_has good 1%N 2%N = Some 0%N /\
+  wf_lheader (ex_lh ex_pairs) = true /\ forallb (wf_lcall ex_u) ex_lcalls = true /\
+  members_list (lh_init (ex_lh ex_pairs)) 2%N = [1; 0; 3]%N.
+Proof. vm_compute. repeat split; reflexivity. Qed.
 
 (* ---- non-vacuity: a reachable state with a role-admin chain including a cycle, swap-and-pop
    having happened, the admin renounced and a role admin still governing ---- *)
